@@ -829,6 +829,7 @@ Section Run.
   | RList (l : list rval)
   | RTuple (fs : list (bytes * rval))
   | RCon (arms : list rarm)
+  | ROpaque                          (* a function or a module *)
   with rarm :=
   | RRangeI (lo hi : option Z)
   | RRangeF (lo hi : option FT)
@@ -923,17 +924,41 @@ Section Run.
                  end) arms
     end.
 
-  (* op_check_constraint: the constraint is on top of the stack, the value below it *)
-  Definition check_constraint (c v : rval) : bool :=
-    match c with
-    | RCon arms => if contains_self_ref arms then true else cv_check arms v
-    | _ => true          (* a plain value in constraint position: checked statically only *)
-    end.
-
   (* run-time environment: let-bound values and constraint values *)
   Definition renv := list (bytes * rval).
   Fixpoint re_get (x : bytes) (re : renv) : option rval :=
     match re with [] => None | (y, v) :: re' => if bytes_eqb x y then Some v else re_get x re' end.
+
+  (* VM::conforms_to_exemplar (761a6c7): NULL fits anything; the same primitive kind; tuples agreeing on the
+     fields they share (LAST binding of a name) with one field set contained in the other; lists where every
+     element of one side has the shape of some element of the other; functions, modules and constraint
+     values against a composite are left to the static check *)
+  Definition is_some {A} (o : option A) : bool := match o with Some _ => true | None => false end.
+  Fixpoint rv_conforms (ex v : rval) : bool :=
+    match ex, v with
+    | RNull, _ | _, RNull => true
+    | RBool _, RBool _ | RInt _, RInt _ | RFloat _, RFloat _ | RStr _, RStr _ => true
+    | RBool _, _ | RInt _, _ | RFloat _, _ | RStr _, _ => false
+    | _, RBool _ | _, RInt _ | _, RFloat _ | _, RStr _ => false
+    | RTuple fe, RTuple fv =>
+      (forallb (fun '(k, _) => is_some (re_get k (rev fv))) fe
+       || forallb (fun '(k, _) => is_some (re_get k (rev fe))) fv)
+      && forallb (fun '(k, x) => match re_get k (rev fv) with
+                                 | Some y => rv_conforms x y
+                                 | None => true end) fe
+    | RList le, RList lv =>
+      forallb (fun x => existsb (fun y => rv_conforms x y) lv) le
+      || forallb (fun y => existsb (fun x => rv_conforms x y) le) lv
+    | RTuple _, RList _ | RList _, RTuple _ => false
+    | _, _ => true
+    end.
+
+  (* op_check_constraint: the constraint is on top of the stack, the value below it *)
+  Definition check_constraint (c v : rval) : bool :=
+    match c with
+    | RCon arms => if contains_self_ref arms then true else cv_check arms v
+    | _ => rv_conforms c v          (* a plain value in constraint position is an exemplar (761a6c7) *)
+    end.
 
   Fixpoint has_key {A} (k : bytes) (l : list (bytes * A)) : bool :=
     match l with [] => false | (k', _) :: l' => bytes_eqb k k' || has_key k l' end.
@@ -1019,6 +1044,18 @@ Section Run.
     | CExpr e => do _ <- lit_eval re e; Ok re
     end.
 
+  (* the Let statement with an arbitrary evaluator for the bound expression (the constraint expression
+     stays in the literal fragment): [run_stmt (CLet x c e) re = run_let_gen lit_eval x c e re] *)
+  Definition run_let_gen (ev : renv -> expr -> res rval) (x : bytes) (c : option cexpr) (e : expr) (re : renv)
+    : res renv :=
+    do v <- ev re e;
+    do _ <- match c with
+            | Some ce => do k <- eval_cexpr re ce; if check_constraint k v then Ok tt else Err
+            | None => Ok tt
+            end;
+    if is_reserved x then Err
+    else match re_get x re with Some _ => Err | None => Ok ((x, v) :: re) end.
+
   Fixpoint run_stmts (ss : list cstmt) (re : renv) : res renv :=
     match ss with
     | [] => Ok re
@@ -1058,7 +1095,7 @@ Section Run.
     | VStr s => RStr s
     | VList l => RList (map rv_of_value l)
     | VTuple fs => RTuple (map (fun '(k, x) => (k, rv_of_value x)) fs)
-    | VFunc _ _ _ | VModule _ _ _ => RNull
+    | VFunc _ _ _ | VModule _ _ _ => ROpaque
     end.
 
   (* the literal expression denoting a value (floats through their bit pattern) *)
@@ -1145,7 +1182,7 @@ Section Run.
     end.
   Definition runtime_ok (c : vconstraint) (v : value) : bool :=
     match c with
-    | VExemplar _ => true
+    | VExemplar ex => rv_conforms (rv_of_value ex) (rv_of_value v)
     | VAlt arms => match rarms_of arms with
                    | Some r => check_constraint (RCon r) (rv_of_value v)
                    | None => false end
@@ -1322,7 +1359,7 @@ End Run.
 
 Arguments VExemplar {fo}. Arguments VAlt {fo}. Arguments VRange {fo}. Arguments VExact {fo}.
 Arguments RNull {fo}. Arguments RBool {fo}. Arguments RInt {fo}. Arguments RFloat {fo}. Arguments RStr {fo}.
-Arguments RList {fo}. Arguments RTuple {fo}. Arguments RCon {fo}.
+Arguments RList {fo}. Arguments RTuple {fo}. Arguments RCon {fo}. Arguments ROpaque {fo}.
 Arguments RRangeI {fo}. Arguments RRangeF {fo}. Arguments RExact {fo}.
 
 Definition is_type_err (s : shape) : Prop := is_err s = true.
